@@ -1,3 +1,215 @@
+// families ACH (23) and ATK (24): poll histories on AsyncReadWriteChain / AsyncReadWriteTake over scripted async inner objects,
+// side by side with tokio's own chain()/take() on the same scripts (variant 2).  See coq/Run/TokioAdapters.v.
 use crate::common::*;
-pub fn run_achain(_c: &mut Cur, _out: &mut Vec<i128>) {}
-pub fn run_atake(_c: &mut Cur, _out: &mut Vec<i128>) {}
+use fixed_buffer_tokio::{AsyncReadWriteChain, AsyncReadWriteTake};
+use std::sync::{Mutex, MutexGuard};
+fn lk<T>(m: &Mutex<T>) -> MutexGuard<'_, T> {
+    m.lock().unwrap_or_else(|e| e.into_inner())
+}
+use std::collections::VecDeque;
+use std::pin::Pin;
+use std::task::{Context, Poll};
+use tokio::io::{AsyncRead, AsyncReadExt, AsyncWrite, ReadBuf};
+
+struct F<'a>(&'a Mutex<AScriptReader>);
+impl<'a> AsyncRead for F<'a> {
+    fn poll_read(self: Pin<&mut Self>, cx: &mut Context<'_>, buf: &mut ReadBuf<'_>) -> Poll<std::io::Result<()>> {
+        Pin::new(&mut *lk(self.0)).poll_read(cx, buf)
+    }
+}
+struct W<'a>(&'a Mutex<AScriptRW>);
+impl<'a> AsyncRead for W<'a> {
+    fn poll_read(self: Pin<&mut Self>, cx: &mut Context<'_>, buf: &mut ReadBuf<'_>) -> Poll<std::io::Result<()>> {
+        Pin::new(&mut *lk(self.0)).poll_read(cx, buf)
+    }
+}
+impl<'a> AsyncWrite for W<'a> {
+    fn poll_write(self: Pin<&mut Self>, cx: &mut Context<'_>, d: &[u8]) -> Poll<std::io::Result<usize>> {
+        Pin::new(&mut *lk(self.0)).poll_write(cx, d)
+    }
+    fn poll_flush(self: Pin<&mut Self>, cx: &mut Context<'_>) -> Poll<std::io::Result<()>> {
+        Pin::new(&mut *lk(self.0)).poll_flush(cx)
+    }
+    fn poll_shutdown(self: Pin<&mut Self>, cx: &mut Context<'_>) -> Poll<std::io::Result<()>> {
+        Pin::new(&mut *lk(self.0)).poll_shutdown(cx)
+    }
+}
+
+enum Op {
+    Read(Vec<u8>, usize, bool),
+    Write(Vec<u8>),
+    Flush,
+    Shutdown,
+}
+fn parse_ops(c: &mut Cur) -> Vec<Op> {
+    let mut v = Vec::new();
+    while !c.done() {
+        match c.next() {
+            0 => {
+                let pre = c.take_list();
+                let cap = c.next() as usize;
+                let un = c.next() != 0;
+                v.push(Op::Read(pre, cap, un));
+            }
+            1 => v.push(Op::Write(c.take_list())),
+            2 => v.push(Op::Flush),
+            _ => v.push(Op::Shutdown),
+        }
+    }
+    v
+}
+fn tail_obs(out: &mut Vec<i128>, first: Option<&AScriptReader>, rw: &AScriptRW) {
+    out.push(-6);
+    match first {
+        Some(f) => {
+            out.push(f.pos as i128);
+            out.push(f.log.len() as i128);
+            out.extend(f.log.iter().map(|x| *x as i128));
+        }
+        None => {
+            out.push(0);
+            out.push(0);
+        }
+    }
+    out.push(-6);
+    out.push(rw.r.pos as i128);
+    out.push(rw.r.log.len() as i128);
+    out.extend(rw.r.log.iter().map(|x| *x as i128));
+    out.push(-7);
+    out.push(rw.w.log.len() as i128);
+    out.extend(rw.w.log.iter());
+}
+
+// one op against any AsyncRead (+AsyncWrite when `wr` is Some)
+fn do_read<R: AsyncRead + Unpin>(a: &mut R, cx: &mut Context<'_>, pre: &[u8], cap: usize, un: bool, out: &mut Vec<i128>) {
+    let mut orb = OwnedRb::new(pre.to_vec(), cap, un);
+    let r = std::panic::catch_unwind(std::panic::AssertUnwindSafe(|| {
+        let mut tmp = Vec::new();
+        let mut rb = orb.readbuf();
+        let p = Pin::new(a).poll_read(cx, &mut rb);
+        enc_poll_unit(&mut tmp, &p);
+        enc_rb(&mut tmp, &rb);
+        tmp
+    }));
+    match r {
+        Ok(t) => out.extend(t),
+        Err(_) => out.push(PANIC),
+    }
+}
+fn do_write<A: AsyncWrite + Unpin>(a: &mut A, cx: &mut Context<'_>, op: &Op, out: &mut Vec<i128>) {
+    let r = std::panic::catch_unwind(std::panic::AssertUnwindSafe(|| {
+        let mut tmp = Vec::new();
+        match op {
+            Op::Write(d) => enc_poll_usize(&mut tmp, &Pin::new(a).poll_write(cx, d)),
+            Op::Flush => enc_poll_unit(&mut tmp, &Pin::new(a).poll_flush(cx)),
+            _ => enc_poll_unit(&mut tmp, &Pin::new(a).poll_shutdown(cx)),
+        }
+        tmp
+    }));
+    match r {
+        Ok(t) => out.extend(t),
+        Err(_) => out.push(PANIC),
+    }
+}
+
+#[allow(clippy::too_many_arguments)]
+fn chain_variant(variant: u64, s1: Vec<u8>, sc1: VecDeque<(u64, u64, u64)>, s2: Vec<u8>, sc2: VecDeque<(u64, u64, u64)>,
+                 ws: VecDeque<(u64, u64)>, ops: &[Op], out: &mut Vec<i128>) {
+    let first = Mutex::new(AScriptReader::new(s1, sc1));
+    let rw = Mutex::new(AScriptRW { r: AScriptReader::new(s2, sc2), w: AScriptWriter::new(ws) });
+    let (_cw, waker) = count_waker();
+    let mut cx = Context::from_waker(&waker);
+    let clear = || {
+        lk(&first).log.clear();
+        lk(&rw).r.log.clear();
+        lk(&rw).w.log.clear();
+    };
+    let mut f = F(&first);
+    let mut w = W(&rw);
+    if variant == 0 {
+        let mut chain = AsyncReadWriteChain::new(&mut f, &mut w);
+        for op in ops {
+            clear();
+            out.push(MOP);
+            match op {
+                Op::Read(pre, cap, un) => do_read(&mut chain, &mut cx, pre, *cap, *un, out),
+                _ => do_write(&mut chain, &mut cx, op, out),
+            }
+            tail_obs(out, Some(&lk(&first)), &lk(&rw));
+        }
+    } else {
+        let mut chain = AsyncReadExt::chain(&mut f, &mut w);
+        for op in ops {
+            if let Op::Read(pre, cap, un) = op {
+                clear();
+                out.push(MOP);
+                do_read(&mut chain, &mut cx, pre, *cap, *un, out);
+                tail_obs(out, Some(&lk(&first)), &lk(&rw));
+            }
+        }
+    }
+}
+pub fn run_achain(c: &mut Cur, out: &mut Vec<i128>) {
+    let variant = c.next();
+    let s1 = c.take_list();
+    let sc1 = c.take_script();
+    let s2 = c.take_list();
+    let sc2 = c.take_script();
+    let ws = c.take_wscript();
+    let ops = parse_ops(c);
+    if variant == 2 {
+        chain_variant(0, s1.clone(), sc1.clone(), s2.clone(), sc2.clone(), ws.clone(), &ops, out);
+        out.push(-8);
+        chain_variant(1, s1, sc1, s2, sc2, ws, &ops, out);
+    } else {
+        chain_variant(variant, s1, sc1, s2, sc2, ws, &ops, out);
+    }
+}
+
+fn take_variant(variant: u64, limit: u64, s2: Vec<u8>, sc2: VecDeque<(u64, u64, u64)>, ws: VecDeque<(u64, u64)>, ops: &[Op], out: &mut Vec<i128>) {
+    let rw = Mutex::new(AScriptRW { r: AScriptReader::new(s2, sc2), w: AScriptWriter::new(ws) });
+    let (_cw, waker) = count_waker();
+    let mut cx = Context::from_waker(&waker);
+    let clear = || {
+        lk(&rw).r.log.clear();
+        lk(&rw).w.log.clear();
+    };
+    let mut w = W(&rw);
+    if variant == 0 {
+        let mut take = AsyncReadWriteTake::new(&mut w, limit);
+        for op in ops {
+            clear();
+            out.push(MOP);
+            match op {
+                Op::Read(pre, cap, un) => do_read(&mut take, &mut cx, pre, *cap, *un, out),
+                _ => do_write(&mut take, &mut cx, op, out),
+            }
+            tail_obs(out, None, &lk(&rw));
+        }
+    } else {
+        let mut take = AsyncReadExt::take(&mut w, limit);
+        for op in ops {
+            if let Op::Read(pre, cap, un) = op {
+                clear();
+                out.push(MOP);
+                do_read(&mut take, &mut cx, pre, *cap, *un, out);
+                tail_obs(out, None, &lk(&rw));
+            }
+        }
+    }
+}
+pub fn run_atake(c: &mut Cur, out: &mut Vec<i128>) {
+    let variant = c.next();
+    let limit = c.next();
+    let s2 = c.take_list();
+    let sc2 = c.take_script();
+    let ws = c.take_wscript();
+    let ops = parse_ops(c);
+    if variant == 2 {
+        take_variant(0, limit, s2.clone(), sc2.clone(), ws.clone(), &ops, out);
+        out.push(-8);
+        take_variant(1, limit, s2, sc2, ws, &ops, out);
+    } else {
+        take_variant(variant, limit, s2, sc2, ws, &ops, out);
+    }
+}
